@@ -101,3 +101,81 @@ fn c16_repeatable_from_empty_cache() {
     assert!(fresh == after, "C16: position after e2e4 e7e5 g1f3 b8c6 searched to depth 4: {fresh:?} fresh, {after:?} after the position two plies earlier was searched");
     clear();
 }
+
+// ---- C11: a reference minimax of the engine's own look-ahead game, written from the property statement (no pruning, no
+// ordering, no cache), against the value the real search records for the root
+fn ref_quiesce(b: &mut Board, ply: i32) -> i32 {
+    let mut best = i32::from(SimpleEvaluator.evaluate(b));
+    for m in b.get_legal_moves() {
+        if !m.is_capture() { continue; }
+        b.make_move(m);
+        let v = -ref_quiesce(b, ply + 1);
+        b.unmake_move();
+        if v > best { best = v; }
+    }
+    best
+}
+fn ref_mm(b: &mut Board, depth: i32, ply: i32) -> i32 {
+    if b.get_halfmove_clock() >= 100 { return 0; }
+    if b.position_reached(b.zkey) { return 0; }
+    let chk = b.is_in_check(b.current_turn);
+    let d = if chk { depth + 1 } else { depth };
+    if d <= 0 { return ref_quiesce(b, ply); }
+    let moves = b.get_legal_moves();
+    if moves.is_empty() { return if chk { i32::from(Score::MIN) + ply } else { 0 }; }
+    let mut best = i32::MIN;
+    for m in moves {
+        b.make_move(m);
+        let v = -ref_mm(b, d - 1, ply + 1);
+        b.unmake_move();
+        if v > best { best = v; }
+    }
+    best
+}
+// sparse positions: the reference quiescence is exhaustive, so little may be capturable
+const C11_ROOTS: [&str; 14] = [
+    "8/2p5/3p4/KP5r/1R3p1k/8/4P1P1/8 w - - 0 1",
+    "6k1/5ppp/8/8/8/8/8/R3K3 w Q - 0 1",
+    "7k/8/8/8/r7/1r6/8/5K2 w - - 0 1",
+    "8/8/8/8/8/1q6/2k4P/K7 w - - 0 1",
+    "4k3/P6P/8/8/8/8/p6p/4K3 w - - 0 1",
+    "4k3/3p4/8/4P3/8/8/8/4K3 b - - 0 1",
+    "8/8/4k3/8/2p5/8/B2P4/4K3 w - - 98 60",
+    "3k4/8/3K4/8/8/8/8/R7 w - - 0 1",
+    "8/5k2/8/3b4/8/2N5/8/4K2R w K - 0 1",
+    "2r3k1/5ppp/8/8/8/8/5PPP/2R3K1 w - - 0 1",
+    "8/8/8/3k4/8/2n1K3/4P3/8 w - - 0 1",
+    "5rk1/6pp/8/8/8/8/1Q6/6K1 w - - 0 1",
+    "k7/8/1K6/8/8/8/8/2Q5 w - - 0 1",
+    "7k/8/6K1/8/8/8/8/5Q2 w - - 0 1",
+];
+/// C11: for depths 1..3 from an empty cache (at these depths a position probed at one node was never stored by another, so
+/// the cache is neutral) the recorded root score equals the reference minimax value, and the recorded move attains it
+#[test]
+fn c11_root_value_is_minimax() {
+    for fen in C11_ROOTS.iter() {
+        let root = Board::from_fen(fen);
+        if root.clone().get_legal_moves().is_empty() { continue; }
+        for depth in 1..=3u8 {
+            clear();
+            let mut s = Search::new(&root, None);
+            s.start();
+            let mv = s.alpha_beta_start(&SimpleEvaluator, depth, Instant::now());
+            let got = i32::from(s.info.best_score.expect("completed iteration records a score"));
+            // the reference: the root itself has neither draw test nor check extension (alpha_beta_start); children at ply 1
+            let mut b = root.clone();
+            let mut want = i32::MIN;
+            let mut of_mv = i32::MIN;
+            for m in b.get_legal_moves() {
+                b.make_move(m);
+                let v = -ref_mm(&mut b, i32::from(depth) - 1, 1);
+                b.unmake_move();
+                if v > want { want = v; }
+                if m == mv { of_mv = v; }
+            }
+            assert!(got == want, "C11: {fen} depth {depth}: the search records {got}, the minimax value of the look-ahead game is {want}");
+            assert!(of_mv == want, "C11: {fen} depth {depth}: the move on record ({mv}) is worth {of_mv}, the best move is worth {want}");
+        }
+    }
+    clear();
+}
